@@ -300,30 +300,41 @@ func (s *seq) byPoint(k pkey) {
 		v, f = s.w.propVal(pr)
 	}
 	live := s.liveFacts(k)
+	ever := s.pkFacts[k]
 	// the statement: for each stored fact, the lookup by its (point, proposer, previous block) returns the
 	// proposal kept for that fact
+	isLive := func(x int) bool {
+		for _, lf := range live {
+			if lf == x {
+				return true
+			}
+		}
+		return false
+	}
 	switch {
-	case len(live) == 0:
+	case len(ever) <= 1 && len(live) == 0:
 		if found {
 			s.fail("proposal-phantom", fmt.Sprintf("ProposalByPoint(%v) found fact %d, nothing stored", k, f))
 		}
-	case len(live) == 1:
+	case len(ever) <= 1:
 		if !found || f != live[0] || v != s.firstProp[live[0]] {
 			s.fail("proposal-by-point-wrong", fmt.Sprintf("ProposalByPoint(%v) = (found=%v, fact %d, value %d); stored: fact %d with first proposal %d", k, found, f, v, live[0], s.firstProp[live[0]]))
 		}
 	default:
-		// two different facts stored for one point key: the lookup cannot return both.  Known finding class;
-		// anything other than "one of the stored ones, consistent with the lookup by fact" is a different violation
-		ok := false
+		// two different facts were stored for one point key: the lookup cannot return both (and after a clean-up
+		// the first one is kept by hash but no longer reachable by point).  Known finding class; an answer that is
+		// not a kept proposal of a stored fact of this key is a different violation
+		deviates := false
 		for _, lf := range live {
-			if found && f == lf && v == s.firstProp[lf] {
-				ok = true
+			if !(found && f == lf && v == s.firstProp[lf]) {
+				deviates = true
 			}
 		}
-		if !ok {
-			s.fail("proposal-by-point-wrong", fmt.Sprintf("ProposalByPoint(%v) = (found=%v, fact %d, value %d) is none of the stored %v", k, found, f, v, live))
-		} else {
-			s.fail("proposal-point-key-overwritten", fmt.Sprintf("facts %v stored for one (point, proposer, previous block) %v: ProposalByPoint returns fact %d only; for the other fact(s) the lookup does not return the proposal kept for them", live, k, f))
+		switch {
+		case found && (!isLive(f) || v != s.firstProp[f]):
+			s.fail("proposal-by-point-wrong", fmt.Sprintf("ProposalByPoint(%v) = (fact %d, value %d) is not a kept proposal of the stored facts %v", k, f, v, live))
+		case deviates:
+			s.fail("proposal-point-key-overwritten", fmt.Sprintf("facts %v were stored for one (point, proposer, previous block) %v (still kept: %v): ProposalByPoint = (found=%v, fact %d); for the other kept fact(s) the lookup does not return the proposal kept for them", ever, k, live, found, f))
 		}
 	}
 	fv := "None"
